@@ -43,6 +43,12 @@ def classify(prog, cfg, res, ref):
         return "odpor-befs-abort-closed-of-parent"
     if rc == 134 and red == "udpor":
         return "udpor-abort"
+    if rc == 134 and red in ("sdpor", "odpor") and "W" in f["ops"] and ("N" in f["ops"] or "Y" in f["ops"]):
+        return "sdpor-odpor-condvar-abort-lock-handle"
+    if rc == 134 and red in ("sdpor", "odpor") and "B" in f["ops"]:
+        return "sdpor-odpor-barrier-abort-actor-minus-one"
+    if rc == 0 and red in ("sdpor", "odpor") and f["nchild"] >= 2:
+        return "sdpor-odpor-concurrent-actor-create-missing-outcome"
     if red == "udpor" and rc == 0 and "DEADLOCK DETECTED" in res.get("text", ""):
         return "udpor-deadlock-reported-with-exit-code-zero"
     if rc == 4 and red == "odpor" and "X" in f["ops"] and f["nchild"] > 0:
